@@ -1,7 +1,287 @@
-import Ccp.Model.Edit
+import Ccp.Proofs.Edit
+/-!
+# C07 — after commit the tree is that of a fresh parse, for any edit history
+
+Property theorems only; helper lemmas and the invariants live in `Ccp.Proofs.Edit`:
+
+* `FreshInv s` := `s.dirty = false → s.tree = parse s.cfg s.texts ∧ s.texts = s.tree.texts ∧
+  s.items = committedItems s.tree` (a state without uncommitted change holds the tree of a
+  from-scratch parse of its texts, and the list holds exactly the tree's objects: the
+  `k`-th element is the object with line number `k`);
+* `AutoInv s` := `s.auto = true → s.dirty = false ∧ s.stale = false`;
+* `Forest` is the C03 vocabulary (`Ccp.Proofs.TreeForest`).
+
+The state machine is `Ccp.Model.Edit` (`S`, `Op`, `step`, `run`, `commit`, `init`); a state
+holds a list of items (text + identity) and `s.texts` is the list of their texts.  A tree
+`T` is the triple texts / parent index per line / keep flags; line numbers are positions
+`0..n-1` and child lists are derived from the parent indices, so `tree = parse cfg texts`
+is equality of texts, line numbers, parent links and child lists at once.  `stale` is the
+boolean abstraction of `current_checkpoint ≠ commit_checkpoint`, `dirty` marks an
+uncommitted change.  That the model's `step` is what the code does — including that each
+mutator ends in the auto-commit — is what the correspondence `harness/props/c07.py`
+measures.
+-/
 namespace Ccp.C07
 open Ccp.Tree Ccp.Edit Ccp.Py
 
-theorem placeholder_probe (s : S) : (step s .probe).1 = s := rfl
+/-! ## bootstrap is idempotent on its own output -/
+
+/-- **`bootstrap` is idempotent**: bootstrapping the texts of a bootstrap result gives the
+same tree, for every option set.  With `ignore_blank_lines` the result of the model's
+re-bootstrapping loop is a fixed point of the blank-line filter (the fuel `ls.length` is
+enough because each round strictly shortens the list); without it the texts are unchanged. -/
+theorem bootstrap_idempotent (cfg : Cfg) (ls : List Str) :
+    bootstrap cfg (bootstrap cfg ls).texts = bootstrap cfg ls :=
+  Ccp.Edit.bootstrap_idempotent cfg ls
+
+/-- Hence the second bootstrap that `CiscoConfParse(...)` performs through `commit()`
+changes nothing: a parse is one bootstrap. -/
+theorem parse_eq_bootstrap (cfg : Cfg) (ls : List Str) : parse cfg ls = bootstrap cfg ls :=
+  Ccp.Edit.parse_eq_bootstrap cfg ls
+
+/-- … and parsing the texts of a parse gives the same tree. -/
+theorem parse_idempotent (cfg : Cfg) (ls : List Str) : parse cfg (parse cfg ls).texts = parse cfg ls := by
+  rw [Ccp.Edit.parse_eq_bootstrap, Ccp.Edit.parse_eq_bootstrap, Ccp.Edit.bootstrap_idempotent]
+
+/-- Without `ignore_blank_lines` a bootstrap keeps every line text in place. -/
+theorem bootstrap_keeps_texts (cfg : Cfg) (ls : List Str) (h : cfg.ignoreBlank = false) :
+    (bootstrap cfg ls).texts = ls := bootstrap_texts_noignore cfg ls h
+
+/-- With `ignore_blank_lines` a bootstrap can only drop lines, and only blank ones: the
+result's texts are a sublist of the input and every non-blank line survives, in order. -/
+theorem bootstrap_drops_only_blank (cfg : Cfg) (ls : List Str) :
+    (bootstrap cfg ls).texts.Sublist ls ∧
+    (bootstrap cfg ls).texts.filter (fun x => !isBlank x) = ls.filter (fun x => !isBlank x) :=
+  bootstrap_texts cfg ls
+
+/-! ## commit -/
+
+/-- **After `commit` the tree is that of a fresh parse**, for every state whatsoever (any
+texts, any stale tree, any flags): the committed tree equals `parse` of the committed
+texts, the texts are the tree's, the list holds exactly the tree's objects with line
+numbers `0..n-1` in order, and both flags are cleared. -/
+theorem commit_is_fresh_parse (s : S) :
+    (commit s).tree = parse s.cfg (commit s).texts ∧
+    (commit s).texts = (commit s).tree.texts ∧
+    (commit s).items = committedItems (commit s).tree ∧
+    (commit s).dirty = false ∧ (commit s).stale = false :=
+  ⟨(commit_fresh s).1, (commit_fresh s).2.1, rfl, rfl, rfl⟩
+
+/-- The objects of a committed tree: their texts are the tree's texts and their line
+numbers (identities) are `0, 1, …, n-1` in list order. -/
+theorem committed_line_numbers (t : T) :
+    (committedItems t).map Item.text = t.texts ∧
+    (committedItems t).map Item.id = (List.range t.texts.length).map some :=
+  ⟨committedItems_texts t, committedItems_ids t⟩
+
+/-- **Committing again changes nothing.** -/
+theorem commit_idempotent (s : S) : commit (commit s) = commit s := Ccp.Edit.commit_idempotent s
+
+/-- The same through the operation alphabet: two `.commit` steps equal one. -/
+theorem commit_commit_step (s : S) : (step (step s .commit).1 .commit).1 = (step s .commit).1 :=
+  Ccp.Edit.commit_idempotent s
+
+/-- The committed tree is a forest (C03). -/
+theorem commit_tree_forest (s : S) : Forest (commit s).tree := bootstrap_forest s.cfg s.texts
+
+/-! ## the invariant over histories -/
+
+/-- The initial state (`CiscoConfParse(ls, …)`) satisfies the invariant. -/
+theorem init_fresh (cfg : Cfg) (auto : Bool) (width : Nat) (ls : List Str) :
+    FreshInv (init cfg auto width ls) ∧ AutoInv (init cfg auto width ls) :=
+  ⟨Ccp.Edit.init_fresh cfg auto width ls, init_auto cfg auto width ls⟩
+
+/-- Every operation preserves the invariant, from every state. -/
+theorem step_preserves_fresh (s : S) (op : Op) :
+    (FreshInv s → FreshInv (step s op).1) ∧ (AutoInv s → AutoInv (step s op).1) :=
+  ⟨step_fresh s op, step_autoInv s op⟩
+
+/-- Configuration, auto-commit flag and indent width never change. -/
+theorem step_keeps_options (s : S) (op : Op) :
+    (step s op).1.cfg = s.cfg ∧ (step s op).1.auto = s.auto ∧ (step s op).1.width = s.width :=
+  step_frame s op
+
+/-- **Every history**: whatever sequence of operations is run from whatever initial
+config, a reached state that has no uncommitted change holds exactly the tree a
+from-scratch parse of its current texts (with the original options) yields, its texts
+are the tree's texts and its objects carry the line numbers `0..n-1` in order. -/
+theorem run_committed_fresh (cfg : Cfg) (auto : Bool) (width : Nat) (ls : List Str) (ops : List Op) :
+    let s := run (init cfg auto width ls) ops
+    s.cfg = cfg ∧
+    (s.dirty = false →
+      s.tree = parse cfg s.texts ∧ s.texts = s.tree.texts ∧ s.items = committedItems s.tree) := by
+  intro s
+  have hc : s.cfg = cfg := (run_frame (init cfg auto width ls) ops).1
+  refine ⟨hc, fun hd => ?_⟩
+  have h := run_fresh _ ops (Ccp.Edit.init_fresh cfg auto width ls) hd
+  rw [hc] at h
+  exact h
+
+/-- **With auto-commit on** every reached state — after every single operation of every
+history, successful or not — has no uncommitted change, is not stale, and holds the tree
+of a fresh parse of its texts. -/
+theorem auto_commit_always_fresh (cfg : Cfg) (width : Nat) (ls : List Str) (ops : List Op) :
+    let s := run (init cfg true width ls) ops
+    s.dirty = false ∧ s.stale = false ∧ s.tree = parse cfg s.texts ∧ s.texts = s.tree.texts := by
+  intro s
+  have ha : s.auto = true := (run_frame (init cfg true width ls) ops).2.1
+  have h1 := run_autoInv _ ops (init_auto cfg true width ls) ha
+  have h2 := (run_committed_fresh cfg true width ls ops).2 h1.1
+  exact ⟨h1.1, h1.2, h2.1, h2.2.1⟩
+
+/-- **With auto-commit off (or on), directly after an explicit `commit`** at the end of
+any history the tree is that of a fresh parse. -/
+theorem explicit_commit_fresh (cfg : Cfg) (auto : Bool) (width : Nat) (ls : List Str) (ops : List Op) :
+    let s := run (init cfg auto width ls) (ops ++ [.commit])
+    s.dirty = false ∧ s.stale = false ∧ s.tree = parse cfg s.texts ∧ s.texts = s.tree.texts := by
+  intro s
+  have hs : s = commit (run (init cfg auto width ls) ops) := by
+    simp only [s, run_append]; rfl
+  have hd : s.dirty = false := by rw [hs]; rfl
+  have h2 := (run_committed_fresh cfg auto width ls (ops ++ [.commit])).2 hd
+  exact ⟨hd, by rw [hs]; rfl, h2.1, h2.2.1⟩
+
+/-- Every reached state without uncommitted change carries a forest (C03's `Forest`):
+one parent index per line and no parent after its child. -/
+theorem commit_forest (cfg : Cfg) (auto : Bool) (width : Nat) (ls : List Str) (ops : List Op) :
+    let s := run (init cfg auto width ls) ops
+    s.dirty = false → Forest s.tree := by
+  intro s hd
+  have h := (run_committed_fresh cfg auto width ls ops).2 hd
+  rw [h.1]
+  exact Ccp.Tree.bootstrap_forest cfg _
+
+/-! ## the stale-tree seatbelt -/
+
+/-- A search probe never changes the state; it refuses with `NotImplementedError` exactly
+when the state is stale, and answers otherwise. -/
+theorem probe_refuses_iff_stale (s : S) :
+    (step s .probe).1 = s ∧
+    ((step s .probe).2 = .error .notImplemented ↔ s.stale = true) ∧
+    ((step s .probe).2 = .ok () ↔ s.stale = false) := by
+  refine ⟨rfl, ?_, ?_⟩ <;> cases h : s.stale <;> simp [Edit.step, h]
+
+/-- With auto-commit off a list `insert` always succeeds and makes the state stale. -/
+theorem insert_sets_stale (s : S) (ha : s.auto = false) (k : Int) (txt : Str) :
+    (step s (.insert k txt)).2 = .ok () ∧ (step s (.insert k txt)).1.stale = true := by
+  simp [Edit.step, autoCommit, ha]
+
+/-- With auto-commit off a successful `append_to_family` makes the state stale. -/
+theorem appendToFamily_sets_stale (s : S) (ha : s.auto = false) (i : Nat) (txt : Str) (ind : Int) (ai : Bool)
+    (hok : (step s (.appendToFamily i txt ind ai)).2 = .ok ()) :
+    (step s (.appendToFamily i txt ind ai)).1.stale = true := by
+  revert hok
+  unfold Edit.step; dsimp only
+  repeat' split
+  all_goals first
+    | (intro h; cases h; done)
+    | (intro _; simp [autoCommit, ha])
+
+/-- With auto-commit off staleness survives every operation except `commit`. -/
+theorem stale_persists (s : S) (op : Op) (ha : s.auto = false) (hs : s.stale = true) (hop : op ≠ .commit) :
+    (step s op).1.stale = true := step_stale_keeps s op ha hs hop
+
+/-- Only `insert` and `append_to_family` (or an earlier one of them) make a state stale. -/
+theorem stale_only_from_insert (s : S) (op : Op) (h : (step s op).1.stale = true) :
+    s.stale = true ∨ (∃ k txt, op = .insert k txt) ∨ (∃ i txt ind ai, op = .appendToFamily i txt ind ai) := by
+  rcases hs : s.stale with _ | _
+  · right
+    cases op
+    case insert k txt => exact .inl ⟨k, txt, rfl⟩
+    case appendToFamily i txt ind ai => exact .inr ⟨i, txt, ind, ai, rfl⟩
+    all_goals
+      exfalso
+      revert h
+      unfold Edit.step; dsimp only
+      repeat' split
+      all_goals first
+        | (simp [hs]; done)
+        | (simp [commit]; done)
+        | (unfold autoCommit; split <;> simp [commit, hs])
+  · exact .inl rfl
+
+/-- `commit` clears staleness, and the next probe answers. -/
+theorem commit_restores (s : S) :
+    (step s .commit).2 = .ok () ∧ (step s .commit).1.stale = false ∧
+    (step (step s .commit).1 .probe).2 = .ok () := ⟨rfl, rfl, rfl⟩
+
+/-- **Stale tree refuses, commit restores** (auto-commit off): after a list `insert`, and
+after any further operations that are not `commit`, every search probe raises
+`NotImplementedError`; after the `commit` it answers again. -/
+theorem stale_refuses (s : S) (ha : s.auto = false) (k : Int) (txt : Str) (ops : List Op)
+    (hno : ∀ op ∈ ops, op ≠ .commit) :
+    let s' := run (step s (.insert k txt)).1 ops
+    (step s' .probe).2 = .error .notImplemented ∧ (step (step s' .commit).1 .probe).2 = .ok () := by
+  intro s'
+  have h1 : (step s (.insert k txt)).1.auto = false := by rw [(step_frame s _).2.1, ha]
+  have h2 := run_stale_keeps _ ops h1 (insert_sets_stale s ha k txt).2 hno
+  exact ⟨(probe_refuses_iff_stale s').2.1.mpr h2, rfl⟩
+
+/-- The same after a successful `append_to_family`. -/
+theorem stale_refuses_family (s : S) (ha : s.auto = false) (i : Nat) (txt : Str) (ind : Int) (ai : Bool)
+    (hok : (step s (.appendToFamily i txt ind ai)).2 = .ok ()) (ops : List Op)
+    (hno : ∀ op ∈ ops, op ≠ .commit) :
+    let s' := run (step s (.appendToFamily i txt ind ai)).1 ops
+    (step s' .probe).2 = .error .notImplemented ∧ (step (step s' .commit).1 .probe).2 = .ok () := by
+  intro s'
+  have h1 : (step s (.appendToFamily i txt ind ai)).1.auto = false := by rw [(step_frame s _).2.1, ha]
+  have h2 := run_stale_keeps _ ops h1 (appendToFamily_sets_stale s ha i txt ind ai hok) hno
+  exact ⟨(probe_refuses_iff_stale s').2.1.mpr h2, rfl⟩
+
+/-- With auto-commit on no reached state is stale: every probe answers. -/
+theorem auto_never_stale (cfg : Cfg) (width : Nat) (ls : List Str) (ops : List Op) :
+    (step (run (init cfg true width ls) ops) .probe).2 = .ok () :=
+  (probe_refuses_iff_stale _).2.2.mpr (auto_commit_always_fresh cfg width ls ops).2.1
+
+/-! ## non-vacuity: a concrete config and concrete histories -/
+
+def exCfg : Cfg := { ios := true, delims := ['!'], ignoreBlank := false }
+
+def exLines : List Str :=
+  ["interface Eth1".toList, " ip address 1.1.1.1".toList, " shutdown".toList, "!".toList,
+   "interface Eth10".toList]
+
+/-- three object-level edits, auto-commit on -/
+def exAuto : List Op :=
+  [.objInsAfter 0 " description x".toList, .delete 4, .appendToFamily 0 " mtu 9000".toList (-1) false]
+
+/-- a list insert, a list append and a probe, auto-commit off -/
+def exManual : List Op := [.insert 2 " no shutdown".toList, .append "end".toList, .probe]
+
+/-- `auto_commit_always_fresh` on a history that changes texts and tree -/
+example : (run (init exCfg true 1 exLines) exAuto).texts =
+    ["interface Eth1".toList, " description x".toList, " ip address 1.1.1.1".toList,
+     " shutdown".toList, " mtu 9000".toList, "interface Eth10".toList] ∧
+    (run (init exCfg true 1 exLines) exAuto).tree.parents = [0, 0, 0, 0, 0, 5] ∧
+    (init exCfg true 1 exLines).tree.parents = [0, 0, 0, 3, 4] := by decide
+example : (run (init exCfg true 1 exLines) exAuto).tree
+    = parse exCfg (run (init exCfg true 1 exLines) exAuto).texts :=
+  (auto_commit_always_fresh exCfg 1 exLines exAuto).2.2.1
+
+/-- auto-commit off: the state is dirty and stale (the hypothesis `dirty = false` of
+`run_committed_fresh` fails and the old tree is still there), the probe refuses -/
+example : (run (init exCfg false 1 exLines) exManual).dirty = true ∧
+    (run (init exCfg false 1 exLines) exManual).stale = true ∧
+    (run (init exCfg false 1 exLines) exManual).tree.parents = [0, 0, 0, 3, 4] ∧
+    (run (init exCfg false 1 exLines) exManual).texts.length = 7 ∧
+    (step (run (init exCfg false 1 exLines) exManual) .probe).2 = .error .notImplemented := by decide
+/-- … and after the explicit commit the hypothesis holds and the tree is the fresh one -/
+example : (run (init exCfg false 1 exLines) (exManual ++ [.commit])).dirty = false ∧
+    (run (init exCfg false 1 exLines) (exManual ++ [.commit])).tree.parents = [0, 0, 0, 0, 4, 5, 6] ∧
+    (step (run (init exCfg false 1 exLines) (exManual ++ [.commit])) .probe).2 = .ok () := by decide
+/-- the hypotheses of `stale_refuses` / `stale_refuses_family` are satisfiable -/
+example : ∀ op ∈ [Op.append "end".toList, Op.probe, Op.pop 0], op ≠ Op.commit := by simp
+example : (step (init exCfg false 1 exLines) (.appendToFamily 0 " mtu 9000".toList (-1) false)).2 = .ok () := by
+  decide
+/-- `ignore_blank_lines`: the filter really drops lines, and the result is a fixed point -/
+example : (bootstrap { exCfg with ignoreBlank := true }
+    ["a".toList, "".toList, " b".toList, "  ".toList]).texts = ["a".toList, " b".toList] := by decide
+example : (run (init { exCfg with ignoreBlank := true } true 1 exLines)
+    [.insert 1 "".toList, .append "  ".toList, .objInsBefore 1 " x".toList]).texts =
+    ["interface Eth1".toList, " x".toList, " ip address 1.1.1.1".toList, " shutdown".toList,
+     "!".toList, "interface Eth10".toList] := by decide
+/-- `bootstrap_keeps_texts` needs its hypothesis -/
+example : (bootstrap { exCfg with ignoreBlank := true } ["a".toList, "".toList]).texts ≠ ["a".toList, "".toList] := by
+  decide
 
 end Ccp.C07
